@@ -117,6 +117,20 @@ func runC13(s *core.Sim, tier string) RunInfo {
 	if byHash {
 		op = "Get"
 	}
+	// sometimes the Exchange is stopped while the request is in flight (the caller's own context is
+	// fine): the request ends with a header some peer validly sent, or with an error
+	stopped := s.Tape.Coin("exchange-stopped-mid-request", 1, 6)
+	var stopT *core.Task
+	if stopped {
+		stopT = s.Go("exchange-stop", func() {
+			s.YieldAfter("stop-after", time.Duration(s.Tape.Draw("stop-after-ms", 400))*time.Millisecond)
+			c, cancel := context.WithTimeout(context.Background(), time.Minute)
+			defer cancel()
+			_ = w.Ex.Stop(c)
+		})
+		desc = append(desc, "Exchange stopped mid-request")
+		s.Probe("exchange-stopped-mid-request")
+	}
 	t, fin := s.Do(op, deadline+2*time.Second, func() {
 		ctx, cancel := context.WithTimeout(context.Background(), deadline)
 		defer cancel()
@@ -126,6 +140,18 @@ func runC13(s *core.Sim, tier string) RunInfo {
 			got, gerr = w.Ex.GetByHeight(ctx, target.Height())
 		}
 	})
+	if stopped {
+		s.Settle(2*time.Minute, stopT)
+		w.Ex = nil // stopped already
+		if t.Panic != nil {
+			s.Violate("panic", map[string]string{"op": op, "racing": "stop"}, "%s panicked while the Exchange was being stopped: %v\n%s", op, t.Panic, t.Stack)
+		} else if !fin {
+			s.Violate("hang", map[string]string{"op": op, "racing": "stop"}, "%s did not return after the Exchange was stopped [%v]", op, desc)
+		} else if gerr == nil && got == nil {
+			s.Violate("zero-header-nil-error", map[string]string{"op": op, "racing": "stop"}, "%s returned a zero header and a nil error when the Exchange was stopped mid-request [%v]", op, desc)
+		}
+		return RunInfo{Nontrivial: true, StateKey: fmt.Sprint(desc, byHash), Evals: 1}
+	}
 	info := RunInfo{Nontrivial: true, StateKey: fmt.Sprint(desc, byHash), Evals: 1,
 		Sample: map[string]any{"op": op, "peers": desc, "result": fmt.Sprint(got), "err": fmt.Sprint(gerr)}}
 	at := map[string]string{"op": op}
